@@ -2,10 +2,11 @@ import SaphyrVerif.Props.C16
 /-!
 # C16 — regression theorems of the repaired findings, and what remains recorded
 
-Both findings the models cover are repaired in the code (and in the models): the former counter-example
+The findings the models cover are repaired in the code (and in the models): the former counter-example
 theorems are now theorems of the good behaviour on the same witnesses, next to the general theorems of
-`Props/C16.lean` (`end_of_stream_location_consistent`, `error_location_nested`).  The oracle classes
-`C16-eof-virtual-line` and `C16-alias-error-defined-is-container` keep their ids: a regression is a violation.
+`Props/C16.lean` (`end_of_stream_location_consistent`, `error_location_nested`, `static_error_at_value_node`).
+The oracle classes `C16-eof-virtual-line`, `C16-alias-error-defined-is-container` and
+`C16-static-error-at-map-value-reported-at-key` keep their ids: a regression is a violation.
 The other recorded classes (`C16-quoted-span-includes-trailing`, `C16-empty-scalar-span`,
 `C16-block-scalar-span-includes-next-indent`, `C16-directive-multibyte-char-offset`) are defects of the
 marks the external scanner hands over; the models take marks as input, so there is no theorem for them.
@@ -30,14 +31,14 @@ leaf sits inside a container that is reached through an alias (on the witness fa
 `j: *a` with `a = [1, oops]` has the definition site of `oops` (14), as the span-carrying value at that
 position has (`aliasDoc "2"`: `.spanned 17 14`). -/
 def nested_alias_error_eq_spanned_Full : Prop :=
-  outcome (deserS 40 {} aliasTy (.live aliasPump (aliasDoc "oops"))) = 1 :: 17 :: 14 :: "AliasError".toList.map Char.toNat
+  outcome (deserS 40 {} none aliasTy (.live aliasPump (aliasDoc "oops"))) = 1 :: 17 :: 14 :: "AliasError".toList.map Char.toNat
 
 /-- (R, formerly `alias_error_defined_is_container_counterexample`) the element error is wrapped with (alias
 token 17, leaf 14) by the sequence access; the enclosing map access — which knows (alias token 17, start of
 the anchored sequence 12) — leaves it alone. -/
 theorem alias_error_keeps_leaf_regression :
     nested_alias_error_eq_spanned_Full ∧
-    outcome (deserS 40 {} aliasTy (.live aliasPump (aliasDoc "2"))) =
+    outcome (deserS 40 {} none aliasTy (.live aliasPump (aliasDoc "2"))) =
       0 :: digestS (.struct [("j", .seq [.spanned 17 13 (.leaf (.int 1)), .spanned 17 14 (.leaf (.int 2))])]) := by
   unfold nested_alias_error_eq_spanned_Full
   decide +kernel
@@ -46,6 +47,22 @@ theorem alias_error_keeps_leaf_regression :
 theorem attachAlias_inner_wins (e : DErr) (r d r' d' : Loc) (h : r ≠ 0 ∧ d ≠ 0 ∧ r ≠ d) (hk : e.kind ≠ "AliasError") :
     attachAlias (attachAlias e r d) r' d' = ⟨"AliasError", r, d⟩ :=
   (error_location_nested e r d r' d' hk h.2.1 h.1 h.2.2).1
+
+/-- (R, finding `C16-static-error-at-map-value-reported-at-key`) the witness `a: 1` / `k:   0` into
+`struct { a: u8, k: NonZeroU8 }` (key `k` at 13, its value at 14): the location-less `invalid_value` of the
+`NonZeroU8` visitor is reported at the VALUE node — where the span-carrying value at that node is
+(`.spanned 14 14`) —, no longer at the key; the sequence element (`k: [1, 0]`, element at 14) reports the same
+way.  What the cell would have attached before the repair (the key guard's 13) is spelled out by C15
+`static_error_in_value_at_value` / `static_error_after_value_at_key`. -/
+theorem static_error_at_map_value_regression :
+    outcome (deserS 40 {} none nzTy (.live aliasPump (nzDoc "0"))) =
+      1 :: 14 :: 0 :: "invalid_value".toList.map Char.toNat ∧
+    outcome (deserS 40 {} none (.struct [("a", .leaf (.int false 8)), ("k", .spanned (.leaf (.int false 8)))])
+        (.live aliasPump (nzDoc "0"))) =
+      0 :: digestS (.struct [("a", .leaf (.int 1)), ("k", .spanned 14 14 (.leaf (.int 0)))]) ∧
+    outcome (deserS 40 {} none (.struct [("k", .seq (.nonzero false 8))]) (.live aliasPump (aliasDoc "0"))) =
+      1 :: 14 :: 0 :: "invalid_value".toList.map Char.toNat := by
+  decide +kernel
 
 /-- (F) **character coordinates wrap beyond 2^32** (the `as u32` casts of line, column, character offset,
 length; only the byte information is range-checked): marks at character 2^32 of one long line give
@@ -58,6 +75,7 @@ theorem char_offset_wraps_counterexample :
 #print axioms eof_location_regression
 #print axioms alias_error_keeps_leaf_regression
 #print axioms attachAlias_inner_wins
+#print axioms static_error_at_map_value_regression
 #print axioms char_offset_wraps_counterexample
 
 end SaphyrVerif.Props.C16
